@@ -9,7 +9,7 @@ META = {
               'region, cut = section missing - A3; a maximal run of binary bytes = one region, cut at a SYMBOLIC byte offset inside it), both transports; the import must terminate the process or leave the '
               'C++ stream failed at every normal return, with CBMC bounds checks on throughout. 8 type-confusion pairs (text title and binary tag '
               'mismatches), both transports.',
-    'outside': 'A3 (a cut inside a text section is modelled as "section missing"); single-byte corruptions other than whole-section substitution; dimensions.',
+    'outside': 'A3 (a cut inside a text section is modelled as "section missing"; guarded on every run by executing the same harness natively on the real parser with 300 seeded cut offsets per region); single-byte corruptions other than whole-section substitution; dimensions.',
     'assumptions': ['A1', 'A2', A3, 'a virtual call on the null TextModeProperties object terminates the process (it is a null-pointer call in the real code)'],
 }
 
@@ -23,7 +23,7 @@ def queries(tier, seed):
             for R in range(NREG[OBJS[o]]):
                 out.append(Q('C18.h_truncated.%s.%s[region %d of %d]' % (OBJS[o], 'cxx' if cxx else 'cfile', R, NREG[OBJS[o]]), 'h_truncated',
                              {'OBJ': o, 'CXX': cxx, 'REGION': R, 'NREGIONS': NREG[OBJS[o]]},
-                             witness=False))
+                             witness=False, native_probe=True, native_sweep=300))
         for w in range(8):
             if tier == 'quick' and cxx == 0 and w not in (0, 2, 5):
                 continue
